@@ -79,3 +79,46 @@ def header_fits(ctx):
             obs.append(Ob('SA-PARSE.header_fits', '%s|while %s' % (fi.qual, norm(t)), not why, ctx.loc(fi, loop), why))
     obs.append(Ob('SA-PARSE.header_fits', 'record loops with a fixed header examined', True, '', '%d' % n))
     return obs
+
+
+@rule('SA-PAIR.cwd')
+@props('C20')
+def cwd_pair(ctx):
+    """The working directory a tool restores is the one it started from: `old = os.getcwd()` that feeds a later
+    `os.chdir(old)` is taken before the `os.chdir(<somewhere else>)` it is meant to undo.  Taken after it, the
+    "restore" keeps the process in the other directory, and every relative path used afterwards (an -extract-to given
+    relative to where the user started) resolves in the wrong place from the first symbolic link on."""
+    obs = []
+    n = 0
+    funcs = [f for f in ctx.m.functions.values() if f.module.startswith('tool_')]
+    for fi in funcs:
+        par = ctx.parents(fi)
+        for st in ctx.own_nodes(fi):
+            if not (isinstance(st, ast.Assign) and len(st.targets) == 1 and isinstance(st.targets[0], ast.Name) and
+                    isinstance(st.value, ast.Call) and norm(st.value.func) == 'os.getcwd'):
+                continue
+            v = st.targets[0].id
+            restores = [c for c in ctx.own_nodes(fi) if isinstance(c, ast.Call) and norm(c.func) == 'os.chdir' and len(c.args) == 1 and
+                        isinstance(c.args[0], ast.Name) and c.args[0].id == v]
+            if not restores:
+                continue
+            n += 1
+            blk = None
+            p = par.get(id(st))
+            for fld in ('body', 'orelse', 'finalbody'):
+                b = getattr(p, fld, None)
+                if isinstance(b, list) and any(x is st for x in b):
+                    blk = b
+            bad = None
+            for x in (blk or []):
+                if x is st:
+                    break
+                for c in ast.walk(x):
+                    if isinstance(c, ast.Call) and norm(c.func) == 'os.chdir' and not (c.args and isinstance(c.args[0], ast.Name) and c.args[0].id == v):
+                        bad = c
+            obs.append(Ob('SA-PAIR.cwd', '%s|%s = os.getcwd()' % (fi.qual, v), bad is None, ctx.loc(fi, st),
+                          '' if bad is None else '`%s = os.getcwd()` (line %d) is taken after `%s` (line %d): the directory that `os.chdir(%s)` goes back to is the one just '
+                          'entered, not the one the tool was started in, so everything extracted afterwards through a relative path lands in the wrong place'
+                          % (v, st.lineno, norm(bad)[:60], bad.lineno, v)))
+    obs.append(Ob('SA-PAIR.cwd', 'saved working directories examined', True, '', '%d' % n))
+    return obs
